@@ -36,6 +36,9 @@ T = {
     ("translate_with_wrap", None): [(("mid", 0), COL, "endpoint"), (("mid", 1), ROW, "endpoint")],
     ("copy_within", None): [(("src", 1, 0), COL, "endpoint"), (("src", 1, 1), ROW, "endpoint"), (("src", 0, 0), COL, "endpoint"), (("src", 0, 1), ROW, "endpoint"),
                             (("dest", 0), COL, "endpoint"), (("dest", 1), ROW, "endpoint")],
+    ("view", None): [(("end", 0), COL, "endpoint"), (("end", 1), ROW, "endpoint"), (("start", 0), COL, "endpoint"), (("start", 1), ROW, "endpoint")],
+    ("view_mut", None): [(("end", 0), COL, "endpoint"), (("end", 1), ROW, "endpoint"), (("start", 0), COL, "endpoint"), (("start", 1), ROW, "endpoint")],
+    ("from_toodee", None): [(("end", 0), COL, "endpoint"), (("end", 1), ROW, "endpoint"), (("start", 0), COL, "endpoint"), (("start", 1), ROW, "endpoint")],
     ("col", "impl:TooDee"): [(("col",), COL, "element")],
     ("col_mut", "impl:TooDee"): [(("col",), COL, "element")],
     ("col", "impl:TooDeeView"): [(("col",), COL, "element")],
@@ -381,6 +384,14 @@ class G:
             if not t or t["k"] != "switch":
                 continue
             e = strip(self.d.expr(t["discr"]))
+            if e[0] == "discr" and strip(e[1])[0] == "call" and strip(e[1])[2] == "checked_sub" and len(strip(e[1])[3]) == 2:
+                # `x.checked_sub(y)` whose None arm can only panic: y <= x on the Some arm
+                tm0 = dict((int(a), b2) for a, b2 in t["targets"])
+                none_succ, some_succ = tm0.get(0), tm0.get(1, t["otherwise"])
+                if none_succ is not None and some_succ is not None and self.diverges(none_succ) and not self.diverges(some_succ):
+                    cs_ = strip(e[1])
+                    out.append((bi, "Le", cs_[3][1], cs_[3][0], some_succ))
+                continue
             neg = False
             while e[0] == "un" and e[1] == "Not":
                 neg = not neg
@@ -579,7 +590,7 @@ def _check_pp(R, RA, g, gs, b, f, pp, pdesc, unit, role, depth, pnames):
                         if ea_ is not None and (ea_ == _pexpr(pp) or whole_):
                             sub = Result("R-GUARD")
                             subA = Result("R-ARITH")
-                            check_body(sub, cb, f, [(("#%d" % ai,) + (tuple(pp[1]) if whole_ else ()), unit, role)], subA, depth + 1) if depth < 2 else None
+                            check_body(sub, cb, f, [(("#%d" % ai,) + (tuple(pp[1]) if whole_ else ()), unit, role)], subA, depth + 1) if depth < 3 else None
                             if sub.instances and all(i["ok"] for i in sub.instances) and not sub.findings:
                                 via = "guard in callee %s: %s" % (cb.ident, sub.instances[0]["what"])
                                 found = (bi, "Lt", "callee " + cb.ident, t["target"], "in " + cb.ident)
@@ -604,8 +615,8 @@ def _check_pp(R, RA, g, gs, b, f, pp, pdesc, unit, role, depth, pnames):
                     # use in the guard block itself: part of the guard expression (e.g. `dest.0 + cols <= num_cols`)
                     undominated.append((what + "(in guard)", span))
             R.inst(b.ident, "%s (%s %s): guard `%s` against %s dominates all %d sensitive uses" % (pdesc, unit, role, found[4], found[2], len(g.sensitive_uses(pp))), not undominated)
-            # "any out-of-range index panics": no normal return may bypass the guard
-            if depth == 0:
+            # "any out-of-range index panics": no normal return may bypass the guard (also inside the callee that carries it)
+            if depth >= 0:
                 byp = []
                 for rbi, rbl in enumerate(b.blocks):
                     tt = rbl["term"]
@@ -747,6 +758,9 @@ def r_guard(f):
                     for o in (st["rv"]["l"], st["rv"]["r"]):
                         if any(x == ("param", 2) for x in walk(d.expr(o))):
                             bad = (st["span"], st["rv"]["op"])
+            for bi, t_, fn_ in b.calls():
+                if fn_ and fn_["path"].startswith("core::num::") and re.match(r"^(wrapping_|unchecked_)(mul|add|shl)", fn_["name"]) and any(x == ("param", 2) for a_ in t_["args"] for x in walk(d.expr(a_))):
+                    bad = (t_["span"], fn_["name"])
             if bad:
                 # accepted alternative: a plain product dominated by `idx < self.len()` (the number of remaining cells):
                 # then idx*(1+skip) <= (len-1)*(1+skip) < slice length, which cannot wrap
